@@ -374,6 +374,20 @@ func TestVerifTrieCodecNode(t *testing.T) {
 							fail("encoding", vHex(enc), vHex(buf.Bytes()), "Encode/"+cls+"/bytes")
 						}
 					}
+					// a node WITHOUT a value may carry a stale "value must be hashed" flag (the in-memory
+					// trie leaves it set after deleting a long V1 value from a branch): the flag says
+					// nothing about a node that has no value, the encoding must be the same
+					if n != nil && n.StorageValue == nil && n.Kind() == Branch {
+						n.MustBeHashed = true
+						buf2 := bytes.NewBuffer(nil)
+						var e2 error
+						if pm := vTry(func() { e2 = n.Encode(buf2) }); pm != "" || e2 != nil {
+							fail("encode", "ok", fmt.Sprint(pm, e2), "Encode/"+cls+"/stale-hashed-flag/failure")
+						} else if !bytes.Equal(buf2.Bytes(), enc) {
+							fail("encoding", vHex(enc), vHex(buf2.Bytes()), "Encode/"+cls+"/stale-hashed-flag/bytes")
+						}
+						n.MustBeHashed = false
+					}
 				}
 				n, err, pm, hung := vtcDecodeGuarded(enc)
 				res.Cmp()
